@@ -55,6 +55,7 @@ func checkC07(p *Program, r *Report) {
 		"R5 the direct-call fast path has evaluated nothing and left the error cell untouched when it reports 'not handled'. " +
 		"R6 deferred and go calls evaluate callee and arguments at the statement: the functions that run later contain no evaluation event. " +
 		"R7 no silent skip: outside ?:, &&, ||, ?? a handler that evaluates a scalar operand of its node does so on every path to a successful return (operands the grammar may leave out, tested against nil, excepted).")
+	r.Explain("R2 also: list fields that one grammar action appends to pairwise (a map literal's keys and values) are evaluated pairwise: the value's list index is the very index of a key evaluation that dominates it.")
 	r.Assume("x op= e / x++ evaluate the operands of x twice by construction of the parser (documented exception); order inside host Go functions is not decided")
 	m, err := buildVMModel(p)
 	if err != nil {
@@ -161,6 +162,49 @@ func checkC07(p *Program, r *Report) {
 						asc, why := ascendingIndex(v)
 						r.Check(asc, "C07.R2", inst+"|index", site, "list index is an induction variable that starts at the front and advances by one per evaluation", "list elements are not visited front to back one at a time: "+why)
 					}
+				}
+			}
+		}
+		// entries written pairwise in the source (k1: v1, k2: v2) are evaluated pairwise: the value's list index is the very index
+		// of a key evaluation that precedes it in the same iteration
+		if kind != "" {
+			idxOf := func(o string) (string, ssa.Value) {
+				f, _, _ := fieldOfPath(o)
+				if i := strings.Index(o, "["); i >= 0 && f != "" {
+					if j := strings.Index(o[i:], "]"); j > 0 {
+						return f, va.idx(fn)[o[i+1:i+j]]
+					}
+				}
+				return "", nil
+			}
+			for _, eg := range va.events[fn] {
+				if eg.role == "let" || len(eg.operands) != 1 {
+					continue
+				}
+				g, gi := idxOf(eg.operands[0])
+				if g == "" || gi == nil {
+					continue
+				}
+				for _, cf := range m.nm.Children[kind] {
+					if !m.nm.Paired(kind, cf.Name, g) {
+						continue
+					}
+					okPair := false
+					for _, ef := range va.events[fn] {
+						if ef.role == "let" || len(ef.operands) != 1 {
+							continue
+						}
+						if f, fi := idxOf(ef.operands[0]); f == cf.Name && fi == gi && instrDominates(ef.call, eg.call) {
+							okPair = true
+						}
+					}
+					inst := fmt.Sprintf("%s|%s %s pairwise with %s", fname, eg.role, normIdx(eg.operands[0]), cf.Name)
+					cnt["pair:"+inst]++
+					if cnt["pair:"+inst] > 1 {
+						inst = fmt.Sprintf("%s #%d", inst, cnt["pair:"+inst])
+					}
+					r.Check(okPair, "C07.R2", inst, p.Pos(eg.call.Pos()), "evaluated right after the "+cf.Name+" element of the same entry (same index, same iteration)",
+						fmt.Sprintf("the %s elements are not evaluated entry by entry with the %s elements they are written next to: all of one list runs before the other, so `k1: v1, k2: v2` evaluates k2 before v1", g, cf.Name))
 				}
 			}
 		}
